@@ -136,13 +136,15 @@ func init() {
 		RunCase: func(c *mon.Ctx, i int) {
 			var o *mon.Obj
 			var desc string
-			var isSeed bool
+			var isSeed, smallFam bool
 			if nU := nSeeds + c.Pick(20000, 400000); i >= nU {
-				// directed families: the small ones completely, a hashed sample of the big ones
+				// directed families: the small ones completely (and every lint alone on each of their members), a
+				// hashed sample of the big ones
 				k := directedPick(c, i-nU)
 				if k < 0 {
 					return
 				}
+				smallFam = i-nU < directedSmallTail(c)
 				o, desc = directedCase(c, k)
 				if o != nil {
 					c.R.Count("directed_objects", 1)
@@ -179,7 +181,7 @@ func init() {
 			}
 			rng := c.Rng(i, 3)
 			// every lint alone (seeds, and every 8th mutant); otherwise a random 48 singletons
-			all := isSeed || i%8 == 0 || c.Thorough() && i%2 == 0
+			all := isSeed || smallFam || i%8 == 0 || c.Thorough() && i%2 == 0
 			for _, li := range Inv {
 				if li.Kind != o.Kind {
 					continue
